@@ -153,6 +153,7 @@ func cmdCheck(args []string) int {
 	var undecided []string
 	var extra []*Obligation
 	var lemmaGaps []string
+	autoLemma := map[string]bool{}
 	var selected []*Obligation
 	var orphans []string
 	var engineErrors []string
@@ -219,6 +220,7 @@ func cmdCheck(args []string) int {
 				if len(lf.Skip) > 0 {
 					lemmaGaps = append(lemmaGaps, l)
 				}
+				autoLemma[l] = true
 				todo = append(todo, lf)
 			}
 		}
@@ -254,7 +256,14 @@ func cmdCheck(args []string) int {
 			}
 		}
 		if n == 0 {
-			engineErrors = append(engineErrors, pf.F+": no obligation generated for this property (vacuous selection)")
+			if autoLemma[pf.F] {
+				// a lemma pulled in by a `use` clause whose own proof is entirely undecided: an assumption, not an error
+				if !contains(lemmaGaps, pf.F) {
+					lemmaGaps = append(lemmaGaps, pf.F)
+				}
+			} else {
+				engineErrors = append(engineErrors, pf.F+": no obligation generated for this property (vacuous selection)")
+			}
 		}
 	}
 	if len(selected) == 0 {
